@@ -16,9 +16,21 @@ def fnv(b):
     return h
 
 
+_BLOCKS = {}
+
+
 def gen(side, sid, off, n):
+    """byte i of the stream = (sid*37 + [128 for the server side] + i*11 + (i>>8)*3) mod 256; period 65536"""
     base = sid * 37 + (128 if side == "s" else 0)
-    return bytes((base + (off + i) * 11 + ((off + i) >> 8) * 3) & 255 for i in range(n))
+    if n <= 4096:
+        return bytes((base + (off + i) * 11 + ((off + i) >> 8) * 3) & 255 for i in range(n))
+    blk = _BLOCKS.get((side, sid))
+    if blk is None:
+        blk = bytes((base + i * 11 + (i >> 8) * 3) & 255 for i in range(65536))
+        _BLOCKS[(side, sid)] = blk
+    o = off % 65536
+    reps = (o + n + 65535) // 65536
+    return (blk * reps)[o:o + n]
 
 
 def data_tok(b):
@@ -134,6 +146,17 @@ class PipeRef:
         self.offs[(side, sid)] = off + n
         return gen(side, sid, off, n)
 
+    def must_accept(self, side, sid, kk):
+        """a send on a stream whose LOCAL sending direction has not ended must be accepted: the session is alive,
+        the application did not shut the stream down; the peer's FIN ends only the other direction (C08)"""
+        e = self.ends[side]
+        objs = e.objs.get(sid, [])
+        if e.dead or kk >= len(objs) or objs[kk].shut:
+            return None
+        o = objs[kk]
+        after = " after the peer's FIN (the other direction must keep working)" if (o.closed and e.live.get(sid) is not o) else ""
+        return "send on stream %d was refused although its sending direction is open%s: the bytes are lost" % (sid, after)
+
     def check(self, ops, toks):
         if len(toks) != len(ops):
             return "implementation printed %d results for %d operations: %s" % (len(toks), len(ops), " ".join(toks)[:200])
@@ -166,6 +189,8 @@ class PipeRef:
             d = self.payload(side, sid, n)
             if tk == "w+":
                 self.wire[side].append((CMD_PSH, sid, d))
+            elif not self.ends[side].dead:
+                return "write_data_frame was refused on a live session (the bytes are lost for stream %d)" % sid
             return None
         if k in ("S", "A"):
             side, sid, kk, n = p[1], int(p[2]), int(p[3]), int(p[4])
@@ -175,15 +200,19 @@ class PipeRef:
             if tk.endswith("+"):
                 if not (k == "A" and n == 0):
                     self.wire[side].append((CMD_PSH, sid, d))
-            return None
+                return None
+            return self.must_accept(side, sid, kk)
         if k == "P":
             if tk == "w+":
                 self.wire[p[1]].append((CMD_PSH, int(p[2]), unhx(p[3])))
+            elif not self.ends[p[1]].dead:
+                return "write_data_frame was refused on a live session (the bytes are lost for stream %s)" % p[2]
             return None
         if k == "U":
             if tk == "s+":
                 self.wire[p[1]].append((CMD_PSH, int(p[2]), unhx(p[4])))
-            return None
+                return None
+            return self.must_accept(p[1], int(p[2]), int(p[3]))
         if k == "H":
             side, sid, kk = p[1], int(p[2]), int(p[3])
             if tk.endswith("!"):
